@@ -9,7 +9,8 @@
 (* Scope.  Part "fam": d in {2,3} x T in 2..5 x N in 2..3 x mode in        *)
 (* {xu, x, both} x {slow, fast} x {no selection, per-frame masks} x        *)
 (* {no neighbour file, per-frame lists} x NFam hashed members; the hash    *)
-(* (seeded by SEED) picks the box (cubic 4/8/12, rectangular), start       *)
+(* (seeded by SEED) picks the box (cubic 4/8/12, rectangular; triclinic    *)
+(* with tilts of either sign for a third of the x-only cases), start       *)
 (* positions, per-step integer displacements (three step alphabets), the   *)
 (* types, diameters from {1, 2, 3/2}, cutoff factor {3/4, 5/8, 5/4}, the   *)
 (* periodic mask, the masks, the lists (differing between frames for       *)
@@ -66,10 +67,16 @@ MkCase(d, T, N, mi, ci, hc, hn, fam) ==
       step == [f \in 1..T |-> [i \in 1..N |-> [k \in 1..d |-> alpha[1 + (Mix4(h0, 30 + f, i, k) % 4)]]]]
       XU[f \in 1..T] == IF f = 1 THEN pos0 ELSE [i \in 1..N |-> VAdd(XU[f - 1][i], step[f][i])]
       xu   == [f \in 1..T |-> XU[f]]
-      x    == [f \in 1..T |-> [i \in 1..N |-> [k \in 1..d |->
-                 IF ppp[k] = 1 \/ Modes[mi] = "both" THEN xu[f][i][k] % box[k] ELSE xu[f][i][k]]]]
+      \* triclinic cells (tilts of either sign) for a third of the x-only cases
+      tri  == Modes[mi] = "x" /\ hh(26) % 3 = 0
+      tl(j) == Pick(<<0 - 3, 2, 0 - 1, 1>>, hh(26 + j))
+      H    == IF ~tri THEN Diag(box)
+              ELSE IF d = 2 THEN << <<box[1], 0>>, <<tl(1), box[2]>> >>
+              ELSE << <<box[1], 0, 0>>, <<tl(1), box[2], 0>>, <<tl(2), tl(3), box[3]>> >>
+      wrapmask == IF Modes[mi] = "both" THEN [k \in 1..d |-> 1] ELSE ppp
+      x    == [f \in 1..T |-> [i \in 1..N |-> WrapInto(H, xu[f][i], wrapmask)]]
       lt   == Pick(LinTs, hh(4))
-  IN  << [ d |-> d, T |-> T, N |-> N, S |-> 1, H |-> Diag(box), ppp |-> ppp,
+  IN  << [ d |-> d, T |-> T, N |-> N, S |-> 1, H |-> H, ppp |-> ppp,
            ts |-> [f \in 1..T |-> lt[1] + (f - 1) * lt[2]],
            types |-> [i \in 1..N |-> 1 + (hh(40 + i) % 2)],
            dia |-> Pick(DiaPairs, hh(5)), a |-> Pick(Afacs, hh(6)),
@@ -119,7 +126,7 @@ Inputs == IF Part = "fam" THEN FamInputs ELSE ExhInputs
 Init == /\ \E inp \in Inputs : /\ inp[2].h % NSHARDS = SHARD
                                /\ c = inp[1] /\ aux = inp[2]
         /\ variant \in {"lin", "log", "s4"}
-        /\ variant = "s4" => aux.nt < c.T
+        /\ variant = "s4" => aux.nt < c.T /\ IsDiagonal(c.H)      \* the S(q) routine assumes an orthogonal box
         /\ st = StInit(c, variant, aux.nt)
 Acc == /\ ~st.done
        /\ st' = StAcc(c, variant, st, variant # "s4")
@@ -141,7 +148,11 @@ InvSlowFast == AtStart => SlowFastPartition(c)
 InvIsf      == AtStart => IsfBounded(c)
 InvMinImage == AtStart => DiagImageIsMinImage(c)
 InvWellFormed == AtStart => /\ \A f \in 1..c.T : \A i \in 1..c.N : \A k \in 1..c.d :
-                                  (c.x[f][i][k] - c.xu[f][i][k]) % BoxLen(c, k) = 0
+                                  FracNum(c.H, VSub(c.x[f][i], c.xu[f][i]))[k] % FracDen(c.H) = 0
+                            /\ c.mode = "x" => \A f \in 1..c.T : \A i \in 1..c.N : \A k \in 1..c.d :
+                                  LET fn == FracNum(c.H, c.x[f][i])[k] IN
+                                  IF c.ppp[k] = 1 THEN 0 <= fn /\ fn < FracDen(c.H)
+                                  ELSE fn = FracNum(c.H, c.xu[f][i])[k]
                             /\ \A f \in 1..c.T : \E i \in 1..c.N : c.cond[f][i] = 1
                             /\ \A f \in 1..c.T : \A i \in 1..c.N : Len(c.nb[f][i]) >= 1 /\ i \notin Range(c.nb[f][i])
 EveryOriginLagPairOnce == [][NoPairTwice(st')]_vars
@@ -156,7 +167,7 @@ Case ==
              ELSE [k \in 1..(c.T - 1) |->
                      RowT(c, variant, k, IF variant = "log" THEN aux.tslog ELSE c.ts, aux.dt)],
     rowsX |-> IF variant = "s4" THEN << >> ELSE [k \in 1..(c.T - 1) |-> AlgRowX(st, k)],
-    smallDisp |-> SmallDisp(c),
+    smallDisp |-> WrapRelApplies(c),
     s4 |-> IF variant = "s4" THEN S4Exp(c, aux.nt, aux.numofq) ELSE << >>,
     tnum |-> IF TNum < 0 THEN 0 ELSE TNum,
     tround |-> NearestSet(IF TNum < 0 THEN 0 ELSE TNum, 10) ]
